@@ -282,12 +282,16 @@ impl<StorageT: PrimInt> Rule<StorageT> {
             .build()
             .parse(&re_str)
             .map_err(|e| regex::Error::Syntax(e.to_string()))?;
-        // (With `ignore_whitespace` a `#` starts a comment that runs to the end of the line: the
+        // (With `ignore_whitespace` - the flag, or `(?x)` in the text itself - a `#` starts a
+        // comment that runs to the end of the line and would take the closing `)` with it: the
         // line is ended before the group is closed.)
-        let anchored = if lex_flags.ignore_whitespace == Some(true) {
+        let anchored = format!("\\A(?:{})", re_str);
+        let anchored = if lex_flags.ignore_whitespace == Some(true)
+            || syntax.build().parse(&anchored).is_err()
+        {
             format!("\\A(?:{}\n)", re_str)
         } else {
-            format!("\\A(?:{})", re_str)
+            anchored
         };
         let mut re = RegexBuilder::new(&anchored);
         let mut re = re
